@@ -177,6 +177,31 @@ def edge_grids1(r):
     return out
 
 
+def twin_values(r):
+    """Values in which two parts are EQUAL under C++ operator== and differ bit-wise: +0.0 against -0.0 in the same place of the two
+    beat grids / of the adjusted and default main cue / of a loop's start and end / of the three loudness bands.  C03 compares by bit
+    pattern: a codec that writes one part from the other 'because they are equal' loses the sign."""
+    pz, nz = [0, 0, 0, 0, 0, 0, 0, 0], [128, 0, 0, 0, 0, 0, 0, 0]
+    out = []
+    for a, b in ((pz, nz), (nz, pz)):
+        def g(z, k=3):
+            beat, nb, unk = rbytes(r, 8), rbytes(r, 4), rbytes(r, 4)
+            return [{"off": z if i == 0 else list(struct.pack(">d", 22050.0 * i)), "beat": [0, 0, 0, 0, 0, 0, 0, i], "nbeats": [4, 0, 0, 0], "unk": [0, 0, 0, 0]}
+                    for i in range(k)]
+        out.append(("beat_data2", {"rate": rf64(r), "samples": rf64(r), "isset": 1, "dflt": g(a), "adj": g(b), "extra": []}))
+        out.append(("beat_data2", {"rate": a, "samples": b, "isset": 1, "dflt": g(a, 1), "adj": g(b, 1), "extra": [0] * 9}))
+        out.append(("quick_cues2", {"cues": [dict({"label": rlabel(r), "off": z}, **rcol(r)) for z in (a, b, a)], "adj": a, "isadj": 1, "dflt": b,
+                                    "extra": []}))
+        out.append(("loops2", {"loops": [dict({"label": rlabel(r), "start": a, "end": b, "ss": 1, "es": 1}, **rcol(r)),
+                                         dict({"label": rlabel(r), "start": b, "end": a, "ss": 1, "es": 1}, **rcol(r))], "extra": []}))
+        out.append(("track_data2", {"rate": a, "samples": rbytes(r, 8), "key": rbytes(r, 4), "low": a, "mid": b, "high": a, "extra": []}))
+        g1 = lambda z: [{"idx": 0, "off": z}, {"idx": 4, "off": list(struct.pack(">d", 88200.0))}]
+        out.append(("beat_data1", {"rate": [rf64(r)], "count": [rf64(r)], "dflt": g1(a), "adj": g1(b)}))
+        out.append(("quick_cues1", {"cues": [[dict({"label": [65], "off": z}, **rcol(r))] for z in (a, b, a, b, a, b, a, b)], "adj": a, "dflt": b}))
+        out.append(("loops1", {"loops": [[dict({"label": [65], "start": a, "end": b}, **rcol(r))] for _ in range(8)]}))
+    return out
+
+
 def corner_values(r, tier):
     """Values at the corners of the domain C03 names: grids of 40000 markers (each, and both at once), waveforms of 100000
     points.  Too large for TLC to compare byte by byte: the driver reports sizes and its own round-trip verdict (big = True)."""
@@ -246,7 +271,7 @@ def format_check(prop, tier, seed, want_enc, want_dec_spec, want_dec_foreign, ru
         # payload lengths on and next to multiples of the chunk size of the (de)compression loops
         for (k, v) in boundary_values(rnd, tier):
             enc_lines.append(json.dumps({"kind": k, "v": v}) + "\n")
-        for (k, v) in edge_grids1(rnd):
+        for (k, v) in edge_grids1(rnd) + twin_values(rnd):
             enc_lines.append(json.dumps({"kind": k, "v": v}) + "\n")
         # the corners of the domain (C03: grids of 0..40000 markers, waveforms of 0..100000 points)
         if prop == "C03":
